@@ -451,3 +451,10 @@ mod tests {
   }
 }
 
+
+// Verification hook (no behaviour change): the unit file text for a list of exclude
+// patterns. Compiled only with --cfg ellbur_totalmapper_verif.
+#[cfg(ellbur_totalmapper_verif)]
+pub fn verif_build_service_text(excludes: &[&str]) -> String {
+  build_service_text(excludes.iter().map(|s| *s))
+}
